@@ -451,6 +451,18 @@ func ruleErrorSplit(c *Ctx, rule string) {
 					}
 				}
 			}
+			if cause == "" && hasHW {
+				// the error of an id-validation helper: if err := s.validate(id); err != nil { return false, err }
+				if call, isC := stripConv(cr.err).(*ssa.Call); isC {
+					if sum := c.idCheckSummary(call, hwField); sum != nil && sum.errAll && sum.causes >= 1 {
+						for _, f := range factsAt(cr.ret) {
+							if x, op, y, ok := cmpFact(f); ok && op == token.NEQ && stripConv(x) == ssa.Value(call) && isNilConst(y) {
+								cause = "id validation helper " + w.Short(sum.fn) + " reported a reused or non-increasing id"
+							}
+						}
+					}
+				}
+			}
 			c.check(cause != "", rule, key, w.At(cr.ret), "cause: "+cause, "the creation function reports a tunnel-level error (ok == false) for a reason other than a reused or non-increasing id: a stream-level problem would end the whole tunnel")
 		case "stream-level":
 			good, why := nonNilErrorPhiAware(cr.err, cr.ret)
@@ -684,6 +696,24 @@ func ruleIDValidation(c *Ctx, rule string) {
 			}
 		}
 	}
+	// the two checks may live in a helper called under the lock: if err := s.validate(id); err != nil { return false, err }
+	var helper *idHelper
+	if !absent || !greater {
+		for _, f := range factsAt(ins) {
+			x, op, y, ok := cmpFact(f)
+			if !ok || op != token.EQL || !isNilConst(y) {
+				continue
+			}
+			if call, isC := stripConv(x).(*ssa.Call); isC && dominates(call, hw) {
+				if sum := c.idCheckSummary(call, hwField); sum != nil && sum.nilOK {
+					helper = sum
+					absent, greater = true, true
+				} else if sum != nil {
+					cmpOp = sum.cmpOp
+				}
+			}
+		}
+	}
 	c.check(absent, rule, "insert only when the id is not active", w.At(ins), "dominated by !present", "the insert is not dominated by a failed lookup of the same id: an active stream could be overwritten")
 	c.check(greater, rule, "insert only for id > high-water mark", w.At(ins), "dominated by id > "+hwField.String(), "the insert is guarded by id "+cmpOp.String()+" "+hwField.String()+" (or not at all); it must be exactly id > high-water mark, i.e. reject id <= high-water mark: ids could be reused or go backwards")
 	c.check(dominates(hw, ins), rule, "high-water mark advanced", w.At(hw), hwField.String()+" = id before the insert", "the high-water mark is not set on the path to the insert")
@@ -693,6 +723,9 @@ func ruleIDValidation(c *Ctx, rule string) {
 		if cr.class == "tunnel-level" {
 			nt++
 		}
+	}
+	if helper != nil && helper.errAll && helper.causes == 2 && nt >= 1 {
+		nt = 2 // one tunnel-level return carrying the helper's error covers both id violations
 	}
 	c.check(nt >= 2, rule, "both id violations end the tunnel", w.Pos(a.Create.Pos()), fmt.Sprintf("%d tunnel-level returns", nt), fmt.Sprintf("only %d tunnel-level (ok == false) returns: a reused or non-increasing id is not refused by ending the tunnel", nt))
 }
@@ -790,4 +823,88 @@ func (c *Ctx) isWrapperMutex(l string) bool {
 	tn := strings.SplitN(l, ".", 2)[0]
 	nt := w.rootNamed(tn)
 	return nt != nil && w.isCarrierType(types.NewPointer(nt))
+}
+
+// idCheckHelper: a method of the tunnel server called as H(..., id, ...) whose result is an error. Summary:
+// errAll: every non-nil error return of H is caused by "id already in the table" or "id <= high-water mark";
+// nilOK: every nil return of H is dominated by both "not in the table" and "id > high-water mark";
+// causes: how many of the two id checks it performs.
+type idHelper struct {
+	fn            *ssa.Function
+	errAll, nilOK bool
+	causes        int
+	cmpOp         token.Token
+}
+
+func (c *Ctx) idCheckSummary(call *ssa.Call, hwField FieldRef) *idHelper {
+	w := c.W
+	a := w.Anchors()
+	h := staticCallee(call)
+	if h == nil || !w.inRoot(h) || h.Signature.Results().Len() != 1 || types.TypeString(h.Signature.Results().At(0).Type(), nil) != "error" {
+		return nil
+	}
+	// which parameter of H receives the frame's id
+	var hp *ssa.Parameter
+	args := call.Call.Args
+	for i, arg := range args {
+		if i < len(h.Params) && len(a.Create.Params) > 2 && origin(arg) == ssa.Value(a.Create.Params[2]) {
+			hp = h.Params[i]
+		}
+	}
+	if hp == nil {
+		return nil
+	}
+	sum := &idHelper{fn: h, errAll: true, nilOK: true}
+	seen := map[string]bool{}
+	forEachReturnValue(h, 0, func(v ssa.Value, at ssa.Instruction) {
+		present, absent, le, gt := false, false, false, false
+		for _, f := range boolFactsAt(at) {
+			if ex, ok := f.V.(*ssa.Extract); ok && ex.Index == 1 {
+				if l, ok := ex.Tuple.(*ssa.Lookup); ok {
+					if fr, _, ok := loadedField(l.X); ok && fr == a.SvStreams && origin(l.Index) == ssa.Value(hp) {
+						if f.True {
+							present = true
+						} else {
+							absent = true
+						}
+					}
+				}
+			}
+		}
+		for _, f := range factsAt(at) {
+			x, op, y, ok := cmpFact(f)
+			if !ok {
+				continue
+			}
+			if origin(y) == ssa.Value(hp) && isFieldLoad(x, hwField) {
+				x, y, op = y, x, flipCmp(op)
+			}
+			if origin(x) == ssa.Value(hp) && isFieldLoad(y, hwField) {
+				switch op {
+				case token.LEQ:
+					le = true
+				case token.GTR:
+					gt = true
+				default:
+					sum.cmpOp = op
+				}
+			}
+		}
+		if isNilConst(v) {
+			if !(absent && gt) {
+				sum.nilOK = false
+			}
+			return
+		}
+		switch {
+		case present:
+			seen["present"] = true
+		case le:
+			seen["le"] = true
+		default:
+			sum.errAll = false
+		}
+	})
+	sum.causes = len(seen)
+	return sum
 }
